@@ -25,6 +25,16 @@ CHECKS = {
              "has no designated code are outside the catalogue (DESIGN §4.2); context-dependent misses are recorded by "
              "mechanism in known_findings.json.",
         design="§4.2"),
+    "C06": dict(
+        technique="relational runtime check over histories in one process against fresh-process references + M-STATE snapshots + permuted rule listing in subprocesses",
+        text="Each target file's observation alone in a fresh interpreter is the reference; the same file is then analysed "
+             "in a process that shares the Registry after itself, after each predecessor class (clean, erroneous, fatal, "
+             "other type, amplifier files that make leaked interpreter/registry state observable), after random histories "
+             "and interleaved: every observation must equal the reference. Subprocesses with the rules directory listing "
+             "permuted before import must yield the same rule order, dependency lists and observations.",
+        note="M-STATE differences (recursion limit, rule order, module-level containers) are reported, never a verdict on "
+             "their own. The harness keeps the interpreter's recursion limit as the tool leaves it.",
+        design="§3.1 M-STATE, §4.6"),
     "C07": dict(
         technique="runtime monitor on the registry's segmentation (M-SEG: Registry.run / run_rules / Context.pop_tokens wrappers)",
         text="On every monitored run (conforming files, variants, fragment insertions): each matched statement claims >= 1 "
@@ -71,6 +81,15 @@ CHECKS = {
              "limit's code on the measured line/function iff n > L.",
         note="Trusts vis_width and the construction; other codes and duplicates are ignored as the property allows.",
         design="§4.3"),
+    "C04": dict(
+        technique="process-boundary monitor (M-CLI): in-child trace of emitted diagnostics vs printed verdict lines vs exit status",
+        text="All 341 sequences of length 0..4 over the file classes {clean, notice-only, erroneous, fatal} are run through "
+             "the real command line as explicit paths (also with a path repeated) and as a directory. Three views must "
+             "agree: what the rules emitted inside the child (recorded by sitecustomize), the verdict lines parsed from "
+             "stdout, and the exit status: one verdict line per file, OK iff no Error-level diagnostic, status 0 iff all "
+             "OK, a fatal file named with non-zero status, never a traceback (also for the empty selection).",
+        note="Classes of representative files are established by an in-process run first; directory mode compares multisets.",
+        design="§3.1 M-CLI, §4.4"),
     "C05": dict(
         technique="sys.monitoring step clock (termination as bounded logical progress) + exception observation at the "
                   "lexer, registry and process boundaries",
